@@ -6,24 +6,44 @@ package main
 // is flipped and the original's deep digest is looked at.
 
 import (
+	"encoding/json"
 	"fmt"
+	"reflect"
 	"regexp"
 	"sort"
 	"strings"
 	"sync"
 	"time"
 
+	"go.sia.tech/core/consensus"
 	"go.sia.tech/core/types"
+	"verif/harness/vlib"
 )
 
 type sharing struct {
 	Op     string `json:"op"`
 	Path   string `json:"path"`
-	Direct bool   `json:"direct"` // reached without crossing a pointer or interface: a slice the copy operation left aliased
+	Direct bool   `json:"direct"` // judged: a slice the operation left aliased although the value around it is the result's own
 	How    string `json:"how"`    // address | mutation
+	Class  string `json:"class"`  // shares: result vs original; overlap: two slices of the result; buffer: result vs the decoder's input
+	Detail string `json:"detail,omitempty"`
+	ci     *caseInfo
+}
+
+func (f sharing) key() string {
+	switch f.Class {
+	case "overlap":
+		return "slices-overlap/" + f.Op + "/" + f.Path
+	case "buffer":
+		return "decoded-aliases-input/" + f.Op + "/" + f.Path
+	}
+	return "copy-shares-slice/" + f.Op + "/" + f.Path
 }
 
 var reIndex = regexp.MustCompile(`\[\d+\]`)
+
+// normPath names the slice rather than the instance: indices are dropped.
+func normPath(p string) string { return strings.TrimPrefix(reIndex.ReplaceAllString(p, "[]"), ".") }
 
 // classPath names the shared thing rather than the instance: indices are dropped; a directly shared slice is named
 // by the slice field (not by the scalars reached through it), memory shared through a pointer or an interface by
@@ -43,38 +63,110 @@ func classPath(p string, direct bool) string {
 	return strings.TrimPrefix(q, ".")
 }
 
+// fieldOf names the kind of slice: the last two components of its path (StateElement.MerkleProof).
+func fieldOf(p string) string {
+	p = normPath(p)
+	if i := strings.LastIndex(p, "->"); i >= 0 {
+		p = p[i+2:]
+	}
+	f := strings.Split(strings.Trim(p, "."), ".")
+	if len(f) > 2 {
+		f = f[len(f)-2:]
+	}
+	return strings.Join(f, ".")
+}
+
+func describeOverlap(a, b region) string {
+	if a.lo == b.lo && a.hi == b.hi {
+		return fmt.Sprintf("%s and %s are the same array", normPath(a.path), normPath(b.path))
+	}
+	if a.lo+uintptr(a.n)*a.elem.Size() <= b.lo {
+		return fmt.Sprintf("the spare capacity of %s (len %d, cap %d) runs into the memory of %s (len %d): an append to the first overwrites the second",
+			normPath(a.path), a.n, a.c, normPath(b.path), b.n)
+	}
+	return fmt.Sprintf("%s (len %d, cap %d) and %s (len %d, cap %d) overlap", normPath(a.path), a.n, a.c, normPath(b.path), b.n, b.c)
+}
+
+// probeSelf looks at ONE value returned by the library (a copy, a decoded value): no two distinct slices reachable
+// from it may overlap up to capacity, and none may lie in the decoder's input buffer.  Slices inside the box of an
+// interface value (spend policies) are immutable by the library's own use and are reported as information.
+func probeSelf(op string, val any, buf []byte) []sharing {
+	var out []sharing
+	seen := map[string]bool{}
+	rs := regions(val, nil, false)
+	for _, p := range selfOverlaps(rs) {
+		f := sharing{Op: op, Path: fieldOf(p[0].path), Direct: !p[0].box && !p[1].box, How: "address", Class: "overlap", Detail: describeOverlap(p[0], p[1])}
+		if !seen[f.key()] {
+			seen[f.key()] = true
+			out = append(out, f)
+		}
+	}
+	if len(buf) > 0 {
+		lo := uintptr(reflect.ValueOf(buf).UnsafePointer())
+		for _, p := range overlaps(rs, []region{{lo: lo, hi: lo + uintptr(cap(buf))}}) {
+			f := sharing{Op: op, Path: normPath(p[0].path), Direct: !p[0].box, How: "address", Class: "buffer", Detail: "the slice lies in the buffer that was decoded"}
+			if !seen[f.key()] {
+				seen[f.key()] = true
+				out = append(out, f)
+			}
+		}
+	}
+	return out
+}
+
 // probeCopy compares *orig with *cp (the result of the copy operation op).
 func probeCopy(op string, orig, cp any, mutate bool) []sharing {
 	var out []sharing
 	seen := map[string]bool{}
 	add := func(path string, direct bool, how string) {
-		path = classPath(path, direct)
 		k := fmt.Sprint(path, direct)
 		if seen[k] {
 			for i := range out {
-				if out[i].Path == path && out[i].Direct == direct && out[i].How != how && out[i].How != "address+mutation" {
+				if out[i].Class == "shares" && out[i].Path == path && out[i].Direct == direct && out[i].How != how && out[i].How != "address+mutation" {
 					out[i].How = "address+mutation"
 				}
 			}
 			return
 		}
 		seen[k] = true
-		out = append(out, sharing{Op: op, Path: path, Direct: direct, How: how})
+		out = append(out, sharing{Op: op, Path: path, Direct: direct, How: how, Class: "shares"})
 	}
-	for _, p := range overlaps(regions(cp, nil, true), regions(orig, nil, true)) {
-		add(p[0].path, !p[0].viaPtr && !p[1].viaPtr && !p[0].ptrLike, "address")
+	// a pointee that copy and original both point to is shared by construction (NewFoundationAddress, the renewal
+	// struct); so is the box of an interface value (policies).  Everything else the copy must own, also behind
+	// pointers of its own (the *V2StorageProof DeepCopy allocates).
+	shared := sharedPointees(orig, cp)
+	for _, p := range overlaps(regionsShared(cp, nil, true, shared), regionsShared(orig, nil, true, shared)) {
+		direct := !p[0].viaPtr && !p[1].viaPtr && !p[0].ptrLike && !p[1].ptrLike
+		if direct {
+			add(normPath(p[0].path), true, "address")
+		} else {
+			add(classPath(p[0].path, false), false, "address")
+		}
 	}
 	if mutate {
 		base := deep(orig)
-		mutateLeaves(cp, func(path string, via bool) {
+		mutateLeaves(cp, shared, func(path string, via bool) {
 			if deep(orig) != base {
-				add(path, !via, "mutation")
+				if !via {
+					// attribute the write to the slice the address comparison found, if it did
+					np := normPath(path)
+					for i := range out {
+						if out[i].Direct && out[i].Class == "shares" && strings.HasPrefix(np, out[i].Path) {
+							if out[i].How == "address" {
+								out[i].How = "address+mutation"
+							}
+							return
+						}
+					}
+				}
+				add(classPath(path, !via), !via, "mutation")
 			}
 		})
 		if deep(orig) != base {
 			add("(original not restored after probing)", true, "mutation")
 		}
 	}
+	out = append(out, probeSelf(op, cp, nil)...)
 	sort.Slice(out, func(i, j int) bool { return out[i].Path < out[j].Path })
 	return out
 }
@@ -82,15 +174,20 @@ func probeCopy(op string, orig, cp any, mutate bool) []sharing {
 type copyBook struct {
 	mu      sync.Mutex
 	probed  map[string]int
-	found   map[string]sharing // op+path -> finding
+	found   map[string]sharing // key -> finding
 	mutated map[string]int
+	rich    map[string]int // probes of values that have what a class of defect needs (vacuity)
+	// replay of a synthetic finding: only probeElements ran
+	onlyElements bool
 }
 
 func newCopyBook() *copyBook {
-	return &copyBook{probed: map[string]int{}, found: map[string]sharing{}, mutated: map[string]int{}}
+	return &copyBook{probed: map[string]int{}, found: map[string]sharing{}, mutated: map[string]int{}, rich: map[string]int{}}
 }
 
-func (cb *copyBook) note(op string, mutate bool, fs []sharing) {
+func (cb *copyBook) note(op string, mutate bool, fs []sharing) { cb.noteCase(op, mutate, fs, nil) }
+
+func (cb *copyBook) noteCase(op string, mutate bool, fs []sharing, ci *caseInfo) {
 	cb.mu.Lock()
 	defer cb.mu.Unlock()
 	cb.probed[op]++
@@ -98,14 +195,24 @@ func (cb *copyBook) note(op string, mutate bool, fs []sharing) {
 		cb.mutated[op]++
 	}
 	for _, f := range fs {
-		k := f.Op + " " + f.Path
+		k := f.key()
+		f.ci = ci
 		if old, ok := cb.found[k]; !ok || (old.How != f.How && old.How != "address+mutation") {
 			if ok {
 				f.How = "address+mutation"
+				if old.ci != nil {
+					f.ci = old.ci
+				}
 			}
 			cb.found[k] = f
 		}
 	}
+}
+
+func (cb *copyBook) count(k string) {
+	cb.mu.Lock()
+	cb.rich[k]++
+	cb.mu.Unlock()
 }
 
 func (cb *copyBook) wantMutation(op string, limit int) bool {
@@ -129,9 +236,30 @@ func proof(n int, b byte) []types.Hash256 {
 	return p
 }
 
-// probeElement runs the three operations of one element type.
+// probeOps runs the three memory operations of one element type: Copy must own everything; Share and Move are
+// shallow by contract ("intentionally aliased" / "memory is not shared"): what they share is recorded, not judged.
+func probeOps[T interface {
+	Copy() T
+	Share() T
+	Move() T
+}](cb *copyBook, name string, mk func() T) {
+	o := mk()
+	c := o.Copy()
+	cb.note(name+".Copy", true, probeCopy(name+".Copy", &o, &c, true))
+	sh := o.Share()
+	cb.note(name+".Share (shallow by contract)", false, probeCopy(name+".Share (shallow by contract)", &o, &sh, false))
+	m := o.Move()
+	cb.note(name+".Move (shallow by contract)", false, probeCopy(name+".Move (shallow by contract)", &o, &m, false))
+	// a copy of a Share()d view owns its memory too
+	c2 := sh.Copy()
+	cb.note(name+".Copy", true, probeCopy(name+".Copy", &sh, &c2, true))
+}
+
+var elementKinds = []string{"StateElement", "ChainIndexElement", "SiacoinElement", "SiafundElement", "FileContractElement", "V2FileContractElement", "AttestationElement"}
+
+// probeElements runs the copy operations on fully populated values (every element kind; a v2 transaction with every
+// resolution kind, the storage proof carrying a history proof).
 func probeElements(cb *copyBook) {
-	se := types.StateElement{LeafIndex: 5, MerkleProof: proof(3, 1)}
 	outs := func(b byte) []types.SiacoinOutput {
 		return []types.SiacoinOutput{{Value: types.Siacoins(uint32(b)), Address: types.Address(h(b))}, {Value: types.NewCurrency64(7), Address: types.Address(h(b + 1))}}
 	}
@@ -140,55 +268,57 @@ func probeElements(cb *copyBook) {
 	v2fc := types.V2FileContract{Capacity: 64, Filesize: 64, FileMerkleRoot: h(50), ProofHeight: 30, ExpirationHeight: 40,
 		RenterOutput: outs(60)[0], HostOutput: outs(61)[0], MissedHostValue: types.Siacoins(1), TotalCollateral: types.Siacoins(1), RevisionNumber: 2}
 
-	{
-		o := se
-		o.MerkleProof = proof(3, 1)
-		c := o.Copy()
-		cb.note("StateElement.Copy", true, probeCopy("StateElement.Copy", &o, &c, true))
-	}
-	{
-		o := types.ChainIndexElement{ID: types.BlockID(h(2)), StateElement: types.StateElement{LeafIndex: 1, MerkleProof: proof(4, 2)}, ChainIndex: types.ChainIndex{Height: 7, ID: types.BlockID(h(2))}}
-		c := o.Copy()
-		cb.note("ChainIndexElement.Copy", true, probeCopy("ChainIndexElement.Copy", &o, &c, true))
-	}
-	{
-		o := types.SiacoinElement{ID: types.SiacoinOutputID(h(3)), StateElement: types.StateElement{LeafIndex: 2, MerkleProof: proof(4, 3)}, SiacoinOutput: outs(3)[0], MaturityHeight: 9}
-		c := o.Copy()
-		cb.note("SiacoinElement.Copy", true, probeCopy("SiacoinElement.Copy", &o, &c, true))
-	}
-	{
-		o := types.SiafundElement{ID: types.SiafundOutputID(h(4)), StateElement: types.StateElement{LeafIndex: 3, MerkleProof: proof(4, 4)}, SiafundOutput: types.SiafundOutput{Value: 10, Address: types.Address(h(4))}, ClaimStart: types.Siacoins(3)}
-		c := o.Copy()
-		cb.note("SiafundElement.Copy", true, probeCopy("SiafundElement.Copy", &o, &c, true))
-	}
-	{
-		o := types.FileContractElement{ID: types.FileContractID(h(5)), StateElement: types.StateElement{LeafIndex: 4, MerkleProof: proof(4, 5)}, FileContract: fc}
-		c := o.Copy()
-		cb.note("FileContractElement.Copy", true, probeCopy("FileContractElement.Copy", &o, &c, true))
-	}
-	{
-		o := types.V2FileContractElement{ID: types.FileContractID(h(6)), StateElement: types.StateElement{LeafIndex: 5, MerkleProof: proof(4, 6)}, V2FileContract: v2fc}
-		c := o.Copy()
-		cb.note("V2FileContractElement.Copy", true, probeCopy("V2FileContractElement.Copy", &o, &c, true))
-	}
-	{
-		o := types.AttestationElement{ID: types.AttestationID(h(7)), StateElement: types.StateElement{LeafIndex: 6, MerkleProof: proof(4, 7)},
+	probeOps(cb, "StateElement", func() types.StateElement { return types.StateElement{LeafIndex: 5, MerkleProof: proof(3, 1)} })
+	probeOps(cb, "ChainIndexElement", func() types.ChainIndexElement {
+		return types.ChainIndexElement{ID: types.BlockID(h(2)), StateElement: types.StateElement{LeafIndex: 1, MerkleProof: proof(4, 2)}, ChainIndex: types.ChainIndex{Height: 7, ID: types.BlockID(h(2))}}
+	})
+	probeOps(cb, "SiacoinElement", func() types.SiacoinElement {
+		return types.SiacoinElement{ID: types.SiacoinOutputID(h(3)), StateElement: types.StateElement{LeafIndex: 2, MerkleProof: proof(4, 3)}, SiacoinOutput: outs(3)[0], MaturityHeight: 9}
+	})
+	probeOps(cb, "SiafundElement", func() types.SiafundElement {
+		return types.SiafundElement{ID: types.SiafundOutputID(h(4)), StateElement: types.StateElement{LeafIndex: 3, MerkleProof: proof(4, 4)}, SiafundOutput: types.SiafundOutput{Value: 10, Address: types.Address(h(4))}, ClaimStart: types.Siacoins(3)}
+	})
+	probeOps(cb, "FileContractElement", func() types.FileContractElement {
+		f := fc
+		f.ValidProofOutputs, f.MissedProofOutputs = outs(20), outs(30)
+		return types.FileContractElement{ID: types.FileContractID(h(5)), StateElement: types.StateElement{LeafIndex: 4, MerkleProof: proof(4, 5)}, FileContract: f}
+	})
+	probeOps(cb, "V2FileContractElement", func() types.V2FileContractElement {
+		return types.V2FileContractElement{ID: types.FileContractID(h(6)), StateElement: types.StateElement{LeafIndex: 5, MerkleProof: proof(4, 6)}, V2FileContract: v2fc}
+	})
+	probeOps(cb, "AttestationElement", func() types.AttestationElement {
+		return types.AttestationElement{ID: types.AttestationID(h(7)), StateElement: types.StateElement{LeafIndex: 6, MerkleProof: proof(4, 7)},
 			Attestation: types.Attestation{PublicKey: types.PublicKey(h(70)), Key: "k", Value: []byte{1, 2, 3, 4}}}
-		c := o.Copy()
-		cb.note("AttestationElement.Copy", true, probeCopy("AttestationElement.Copy", &o, &c, true))
-	}
-	// Share and Move are shallow by contract ("intentionally aliased" / "memory is not shared"): recorded, not judged
-	{
-		o := types.SiacoinElement{ID: types.SiacoinOutputID(h(3)), StateElement: types.StateElement{LeafIndex: 2, MerkleProof: proof(4, 3)}, SiacoinOutput: outs(3)[0]}
-		c := o.Share()
-		cb.note("SiacoinElement.Share (shallow by contract)", false, probeCopy("SiacoinElement.Share (shallow by contract)", &o, &c, false))
-		m := o.Move()
-		cb.note("SiacoinElement.Move (shallow by contract)", false, probeCopy("SiacoinElement.Move (shallow by contract)", &o, &m, false))
-	}
+	})
 	// a v2 transaction with every field populated
 	txn := richV2(fc, v2fc)
-	c := txn.DeepCopy()
-	cb.note("V2Transaction.DeepCopy", true, probeCopy("V2Transaction.DeepCopy", &txn, &c, true))
+	probeDeepCopy(cb, &txn, true, "synthetic", nil)
+}
+
+// hasStorageProof: the transaction carries a storage proof resolution whose history proof (ProofIndex) is not empty.
+func hasStorageProof(t *types.V2Transaction) bool {
+	for _, r := range t.FileContractResolutions {
+		if sp, ok := r.Resolution.(*types.V2StorageProof); ok && len(sp.ProofIndex.StateElement.MerkleProof) > 0 {
+			return true
+		}
+	}
+	return false
+}
+
+func probeDeepCopy(cb *copyBook, t *types.V2Transaction, mutate bool, origin string, ci *caseInfo) {
+	c := t.DeepCopy()
+	cb.noteCase("V2Transaction.DeepCopy", mutate, probeCopy("V2Transaction.DeepCopy", t, &c, mutate), ci)
+	if hasStorageProof(t) {
+		cb.count("DeepCopy of a storage proof transaction with a history proof (" + origin + ")")
+	}
+	for _, r := range t.FileContractResolutions {
+		switch r.Resolution.(type) {
+		case *types.V2FileContractRenewal:
+			cb.count("DeepCopy of a renewal transaction (" + origin + ")")
+		case *types.V2FileContractExpiration:
+			cb.count("DeepCopy of an expiration transaction (" + origin + ")")
+		}
+	}
 }
 
 func richV2(_ types.FileContract, v2fc types.V2FileContract) types.V2Transaction {
@@ -224,35 +354,120 @@ func richV2(_ types.FileContract, v2fc types.V2FileContract) types.V2Transaction
 	}
 }
 
-// probeReal probes the copy operations on the transactions and supplement elements of a simulated block.
-func probeReal(cb *copyBook, in *input) {
+// nonEphemeral counts the element proofs with memory of their own among the slices of a value.
+func nonEphemeralProofs(val any) int {
+	n := 0
+	for _, r := range regions(val, isHash, false) {
+		if strings.HasSuffix(r.path, "StateElement.MerkleProof") {
+			n++
+		}
+	}
+	return n
+}
+
+// probeDecoded decodes buf into *dst with the library's decoder and looks at the value it returns.
+func probeDecoded(cb *copyBook, op string, buf []byte, dst types.DecoderFrom, ci *caseInfo) bool {
+	d := types.NewBufDecoder(buf)
+	if pan, _ := vlib.Recover(func() { dst.DecodeFrom(d) }); pan || d.Err() != nil {
+		return false
+	}
+	cb.noteCase(op, false, probeSelf(op, dst, buf), ci)
+	if n := nonEphemeralProofs(dst); n >= 2 {
+		cb.count(op + " of a value with >= 2 non-ephemeral elements")
+	}
+	return true
+}
+
+// probeReal probes the copy operations and the decoders on the transactions and supplement elements of a simulated
+// block: every value the library hands back must own all of its memory, slice by slice and up to capacity.
+func probeReal(cb *copyBook, in *input, ci *caseInfo) {
 	for i := range in.B.V2Transactions() {
 		t := &in.B.V2.Transactions[i]
-		c := t.DeepCopy()
-		m := cb.wantMutation("V2Transaction.DeepCopy", 60)
-		cb.note("V2Transaction.DeepCopy", m, probeCopy("V2Transaction.DeepCopy", t, &c, m))
+		probeDeepCopy(cb, t, cb.wantMutation("V2Transaction.DeepCopy", 60) || (hasStorageProof(t) && cb.wantMutation("V2Transaction.DeepCopy", 90)), "simulated chain", ci)
 	}
 	for i := range in.Supp.Transactions {
 		ts := &in.Supp.Transactions[i]
 		for j := range ts.SiacoinInputs {
 			c := ts.SiacoinInputs[j].Copy()
 			m := cb.wantMutation("SiacoinElement.Copy", 60)
-			cb.note("SiacoinElement.Copy", m, probeCopy("SiacoinElement.Copy", &ts.SiacoinInputs[j], &c, m))
+			cb.noteCase("SiacoinElement.Copy", m, probeCopy("SiacoinElement.Copy", &ts.SiacoinInputs[j], &c, m), ci)
 		}
 		for j := range ts.SiafundInputs {
 			c := ts.SiafundInputs[j].Copy()
 			m := cb.wantMutation("SiafundElement.Copy", 60)
-			cb.note("SiafundElement.Copy", m, probeCopy("SiafundElement.Copy", &ts.SiafundInputs[j], &c, m))
+			cb.noteCase("SiafundElement.Copy", m, probeCopy("SiafundElement.Copy", &ts.SiafundInputs[j], &c, m), ci)
 		}
 		for j := range ts.RevisedFileContracts {
 			c := ts.RevisedFileContracts[j].Copy()
 			m := cb.wantMutation("FileContractElement.Copy", 60)
-			cb.note("FileContractElement.Copy", m, probeCopy("FileContractElement.Copy", &ts.RevisedFileContracts[j], &c, m))
+			cb.noteCase("FileContractElement.Copy", m, probeCopy("FileContractElement.Copy", &ts.RevisedFileContracts[j], &c, m), ci)
+		}
+		for j := range ts.StorageProofs {
+			c := ts.StorageProofs[j].FileContract.Copy()
+			m := cb.wantMutation("FileContractElement.Copy", 60)
+			cb.noteCase("FileContractElement.Copy", m, probeCopy("FileContractElement.Copy", &ts.StorageProofs[j].FileContract, &c, m), ci)
 		}
 	}
 	for j := range in.Supp.ExpiringFileContracts {
 		c := in.Supp.ExpiringFileContracts[j].Copy()
 		m := cb.wantMutation("FileContractElement.Copy", 60)
-		cb.note("FileContractElement.Copy", m, probeCopy("FileContractElement.Copy", &in.Supp.ExpiringFileContracts[j], &c, m))
+		cb.noteCase("FileContractElement.Copy", m, probeCopy("FileContractElement.Copy", &in.Supp.ExpiringFileContracts[j], &c, m), ci)
+	}
+	// the decoders: binary (the v2 part through the multiproof form, whose decoder allocates and fills in every element
+	// proof; the plain forms) and JSON
+	enc := func(v types.EncoderTo) (b []byte) {
+		vlib.Recover(func() { b = encBytes(v) })
+		return
+	}
+	if b := enc(types.V2Block(in.B)); b != nil {
+		var blk types.Block
+		probeDecoded(cb, "V2Block.DecodeFrom", b, (*types.V2Block)(&blk), ci)
+	}
+	if in.B.V2 != nil {
+		if b := enc(in.B.V2); b != nil {
+			var bd types.V2BlockData
+			probeDecoded(cb, "V2BlockData.DecodeFrom", b, &bd, ci)
+		}
+		if b := enc(types.V2TransactionsMultiproof(in.B.V2.Transactions)); b != nil {
+			var mp types.V2TransactionsMultiproof
+			probeDecoded(cb, "V2TransactionsMultiproof.DecodeFrom", b, &mp, ci)
+		}
+		for i := range in.B.V2.Transactions {
+			if b := enc(in.B.V2.Transactions[i]); b != nil {
+				var t types.V2Transaction
+				probeDecoded(cb, "V2Transaction.DecodeFrom", b, &t, ci)
+			}
+		}
+	}
+	if b := enc(types.V1Block(in.B)); b != nil {
+		var blk types.Block
+		probeDecoded(cb, "V1Block.DecodeFrom", b, (*types.V1Block)(&blk), ci)
+	}
+	if b := enc(in.Supp); b != nil {
+		var bs consensus.V1BlockSupplement
+		probeDecoded(cb, "V1BlockSupplement.DecodeFrom", b, &bs, ci)
+	}
+	if b := enc(in.S); b != nil {
+		var s consensus.State
+		probeDecoded(cb, "State.DecodeFrom", b, &s, ci)
+	}
+	probeJSON(cb, "Block.UnmarshalJSON", in.B, &types.Block{}, ci)
+	probeJSON(cb, "V1BlockSupplement.UnmarshalJSON", in.Supp, &consensus.V1BlockSupplement{}, ci)
+	for i := range in.B.V2Transactions() {
+		probeJSON(cb, "V2Transaction.UnmarshalJSON", in.B.V2.Transactions[i], &types.V2Transaction{}, ci)
+	}
+}
+
+func probeJSON(cb *copyBook, op string, src, dst any, ci *caseInfo) {
+	js, err := json.Marshal(src)
+	if err != nil {
+		return
+	}
+	if pan, _ := vlib.Recover(func() { err = json.Unmarshal(js, dst) }); pan || err != nil {
+		return
+	}
+	cb.noteCase(op, false, probeSelf(op, dst, js), ci)
+	if n := nonEphemeralProofs(dst); n >= 2 {
+		cb.count(op + " of a value with >= 2 non-ephemeral elements")
 	}
 }
